@@ -23,8 +23,15 @@ ASSUMPTIONS = ['inputs more than 1 (quick) / 2 (thorough) edits from every seed 
                'reachable by the seam (modules consulted are listed in clock_readers)']
 
 
+SPLIT = {'stdnum.mac': 12}      # slow validator (registry scan with validate_manufacturer): states spread over work items
+
+
 def plan(ctx):
-    return [(name, ctx['tier']) for name in core.modules()]
+    out = []
+    for name in core.modules():
+        k = SPLIT.get(name, 1)
+        out += [(name, ctx['tier'], part, k) for part in range(k)]
+    return out
 
 
 def _verdict(res, name, m, x, opts, vopts_ok, dev, clk, counts):
@@ -102,7 +109,7 @@ def _clock_menu(m, sv):
 
 
 def work(item):
-    name, tier = item
+    name, tier, part, nparts = item
     m = core.modules()[name]
     clock.install()
     clock.set_today(None)
@@ -119,6 +126,10 @@ def work(item):
             states.setdefault(v_, (1, 'e2', ''))
     except Exception:
         pass
+    if nparts > 1:
+        # this item takes every nparts-th state; the parts that do not depend on the states run in part 0 only
+        states = dict(list(states.items())[part::nparts])
+        transitions = transitions // nparts
     res['transitions'] = transitions
     counts = collections.Counter()
     optsets, unknown = option_sets(name, m.validate)
@@ -142,11 +153,11 @@ def work(item):
             n += 1
             if o[0] == 'ok' or (o[0] == 'verr' and o[1] in ('InvalidChecksum', 'InvalidComponent')):
                 nontrivial += 1
-        for key, val in nonstr:
+        for key, val in (nonstr if part == 0 else ()):
             _verdict(res, name, m, val, opts, ok_for_isvalid, (1, 'nonstr:' + type(val).__name__, ''), None, counts)
             n += 1
         # the seeds as bytes: ASCII bytes, and with a Latin-1 no-break space / an invalid UTF-8 byte inside
-        for s_, v_ in sv[:2]:
+        for s_, v_ in (sv[:2] if part == 0 else ()):
             for b in (v_.encode('utf-8', 'replace'), (v_[:2] + '\xa0' + v_[2:]).encode('latin-1', 'replace'), v_.encode('utf-8', 'replace') + b'\x80'):
                 _verdict(res, name, m, b, opts, ok_for_isvalid, (1, 'nonstr:bytes-seed', ''), None, counts)
                 n += 1
@@ -154,7 +165,7 @@ def work(item):
     # gate with a character of another class in the payload
     from .. import synth
     from ..alphabet import class_of
-    for s_, v_ in sv[:2]:
+    for s_, v_ in (sv[:2] if part == 0 else ()):
         for i, ch in enumerate(v_):
             for c in '09AOZX':
                 if class_of(c) == class_of(ch):
